@@ -29,7 +29,8 @@ BasisViol(ev) ==
        \* which data words of column j are non-zero (0-based word index x): all; only the last; the second half; two late ones
        On(x) == CASE pat = 0 -> TRUE [] pat = 1 -> x = nw - 1 [] pat = 2 -> x >= nw \div 2 + 1 [] OTHER -> x = nw - 1 \/ x = nw \div 2 + 2
        want == [r \in 1..ev.m |-> LET c == GfMul(L(k, j, k + r - 1), linv) IN [i \in 1..nw |-> IF On(i-1) THEN GfMul(c, 2^((i-1) % 16)) ELSE 0]]
-   IN IF ev.flen # 80 + 2 * nw THEN {"C04 payload of a basis encode is not the data length / k"}
+   IN IF Has(ev, "periodic") /\ ev.periodic # 1 THEN {"C04 parity of a large periodic basis encode does not repeat with the data's period (some strip or window of the payload is computed differently)"}
+      ELSE IF ev.flen # 80 + 2 * nw THEN {"C04 payload of a basis encode is not the data length / k"}
       ELSE IF ev.par # want THEN {"C04 parity words of a basis encode differ from coefficient * 2^i"} ELSE {}
 Viol(ev) ==
    CASE ev.e = "Matrix" -> MatrixViol(ev)
